@@ -122,7 +122,7 @@ def r05_4_5(ctx: Ctx):
             opt_sites.append((caller, nid))
     for caller, nid in opt_sites:
         f = ctx.ix.funcs.get(caller)
-        if f is not rf:
+        if f is not rf and not (f is not None and roles.lift(f) is rf):
             ctx.fail(rid, f.short if f else caller, f.loc(ctx.pta.call_nodes[(caller, nid)]) if f else '',
                      'an external optimiser is called outside the local refinement routine: its evaluations are not '
                      'checked against the box', key=f'{rid}::{caller}::other-optimiser')
@@ -143,6 +143,8 @@ def r05_4_5(ctx: Ctx):
                         ba = list(be.d['args'])
                         lb = ba[0] if ba else be.d['kwargs'].get('lb')
                         ub = ba[1] if len(ba) > 1 else be.d['kwargs'].get('ub')
+                        # unconverted copies of the problem's arrays bound the same box
+                        lb, ub = C.through_value_copies(p, lb), C.through_value_copies(p, ub)
                         okl = lb is not None and C.same_mod_ver(lb, attr(prob, 'lowerBoundOfFloatVariables'))
                         oku = ub is not None and C.same_mod_ver(ub, attr(prob, 'upperBoundOfFloatVariables'))
                         okb = okl and oku
@@ -157,7 +159,7 @@ def r05_4_5(ctx: Ctx):
                 ctx.check(mname in BOUNDED_METHODS, rid, rf.short, loc, f'method {mname} honours bounds',
                           f'optimiser method {mname!r} is not known to honour bounds', key=f'{rid}::{rf.short}::method')
                 # R05.5: x0 and the callable
-                x0 = kw.get('x0', args[1] if len(args) > 1 else None)
+                x0 = C.through_value_copies(p, kw.get('x0', args[1] if len(args) > 1 else None))
                 res = None
                 for pp in C.normal_paths(ex.explore(roles.results_getter)):
                     res = pp.value
